@@ -112,7 +112,7 @@ def gen_history(rng, nframes, gsm=True):
     frames that drain the ring.  Returns (cur, ops)."""
     st = Style(rng)
     cur = rng.randrange(D)
-    fn = rng.choice([0, 1, 42, 2715640, rng.randrange(2715648), 2 ** 31 - 200])
+    fn = rng.choice([0, 1, 42, 2715640, rng.randrange(2715648), 2 ** 31 - 200 - (1000 if nframes > 100 else 0)])   # stays below 2^31 (TLC integers)
     ops = []
     p_reset = rng.choice([0.0, 0.0, 0.01, 0.04])
     p_burst = rng.choice([0.0, 0.05, 0.15])
@@ -520,6 +520,11 @@ def run(ctx):
         if i < D:
             cur = i                      # every ring position at least once
         jobs.append(("r%d" % i, cur, ops))
+    # marathons: several hundred frame interrupts in one history (any counter behind the ring position
+    # wraps, every bucket is reused many times)
+    for i in range(ctx.pick(4, 60)):
+        cur, ops = gen_history(ctx.rng, ctx.rng.randint(270, 620), gsm=i % 2 == 0)
+        jobs.append(("m%d" % i, cur, ops))
     # callbacks that schedule further items while their frame is executed
     for i in range(ctx.pick(120, 5000)):
         cur, ops = gen_nested(ctx.rng, ctx.rng.randint(2, 20))
